@@ -257,16 +257,23 @@ fn gen_macro_case(t: &mut Tape) -> MacroCase {
     // v4: string literals that SPELL a placeholder (`"{n}"`): only the placeholder tokens of an inner line are replaced,
     // never the same characters inside a string - neither in an argument text nor in the block's own text
     if crate::engine::gen_version() >= 4 && tail.0.is_empty() && t.chance(1, 5) {
-        let lit = *t.pick(&["\"{n}\"", "\"a{n}b\"", "\"{s}\"", "\"{n}{n}\"", "\"{ n}\"", "\"{s},{n}\"", "\"{}\""]);
+        // (also: a lone brace inside a string, and inside a comment of a multi-line block - text, not structure)
+        let lit = *t.pick(&["\"{n}\"", "\"a{n}b\"", "\"{s}\"", "\"{n}{n}\"", "\"{ n}\"", "\"{s},{n}\"", "\"{}\"", "\"}\"", "\"{\"", "\"}{\"", "\"a}b\""]);
         let k = t.draw(200);
-        if t.flip() {
+        let plain_rules = "#ruledef braceq\n{\n    str3q {s}, {n} => n`8 @ s\n}\n";
+        if t.chance(1, 4) {
+            let c = *t.pick(&["; a } brace", "; { open", ";* } *;", "; {n}"]);
+            let rules = format!("#ruledef braceq\n{{\n    str3q {{s}}, {{n}} => n`8 @ s\n    cmt3q {{n}} => asm\n    {{\n        str3q \"x\", {{n}} {}\n        str3q \"y\", {{n}}\n    }}\n}}\n", c);
+            tail.0 = format!("{}cmt3q {}\n", rules, k);
+            tail.1 = format!("{}str3q \"x\", {}\nstr3q \"y\", {}\n", plain_rules, k, k);
+        } else if t.flip() {
             let rules = "#ruledef braceq\n{\n    str3q {s}, {n} => n`8 @ s\n    say3q {s}, {n} => asm { str3q {s}, {n} }\n}\n";
             tail.0 = format!("{}say3q {}, {}\n", rules, lit, k);
-            tail.1 = format!("{}str3q {}, {}\n", rules, lit, k);
+            tail.1 = format!("{}str3q {}, {}\n", plain_rules, lit, k);
         } else {
             let rules = format!("#ruledef braceq\n{{\n    str3q {{s}}, {{n}} => n`8 @ s\n    lit3q {{n}} => asm {{ str3q {}, {{n}} }}\n}}\n", lit);
             tail.0 = format!("{}lit3q {}\n", rules, k);
-            tail.1 = format!("{}str3q {}, {}\n", rules, lit, k);
+            tail.1 = format!("{}str3q {}, {}\n", plain_rules, lit, k);
         }
         expr_arg = true;
     }
@@ -351,7 +358,7 @@ impl Property for C17 {
          substitution exactly as written, block labels renamed apart). Oracle: both assemble (default budget) to identical bits, or both fail. PART F (a third): 1-2 user functions \
          `#fn f(a, b) => body` with generated bodies over their parameters and global constants; `#d f(e1, e2)`64` must equal `#d (body[a:=(e1), b:=(e2)])`64` and the reference evaluator. \
          PART P (one in seven): a function whose body reads `$`, a later label or a non-static constant, called with literal arguments from instruction operands behind a short/long instruction family (so the layout moves after the first pass); the program must equal the one with the body substituted by hand. PART R (the rest): recursion through functions (self, mutual), asm-block rules and nested calls at depths 3..10 (must succeed with the right value) and 100..20000 (must be an error, \
-         not a crash - a dying worker process is a violation). Non-trivial = (M) a block-local label is referenced or an argument is an expression of >= 2 tokens; (F) body depth >= 2; (R) depth >= 100."
+         not a crash - a dying worker process is a violation). (v4, part M) tails with string literals that SPELL a placeholder or hold a lone brace (`say3q \"{n}\", 3`; `lit3q {n} => asm { str3q \"}\", {n} }`; a comment with a brace inside a multi-line block): strings and comments are text, not structure. Non-trivial = (M) a block-local label is referenced or an argument is an expression of >= 2 tokens; (F) body depth >= 2; (R) depth >= 100."
             .to_string()
     }
     fn assumptions(&self) -> Vec<String> {
